@@ -13,7 +13,9 @@ Record wobs := {                 (* one write of a lazily read file followed by 
   w_idx : list Z;                (* record numbers written, in order *)
   w_eof : bool;                  (* the file on disk ends with the 28-byte BGZF EOF block *)
   w_stream : list Z;             (* gunzip of the written file *)
-  w_reread : list orec           (* bnp.open(written).read() *)
+  w_reread : list orec;          (* bnp.open(written).read() *)
+  w_post : list orec             (* the fields of the written object itself, read AFTER the write (some of them were
+                                    already read before it, in another order); for a stream write: the source re-read *)
 }.
 Record case := {
   k_text : list Z;  k_refs : list (list Z * Z);  k_recs : list brec;      (* ground truth *)
@@ -21,6 +23,7 @@ Record case := {
   k_whole : list orec;           (* bnp.open(p).read() *)
   k_ivs : list oiv;              (* bnp.open(p, buffer_type=BamIntervalBuffer).read() *)
   k_ivs2 : option (list oiv);    (* alignment_to_interval(bnp.open(p).read()); None = the call raises *)
+  k_after_iv : list orec;        (* the SAME entries read again after alignment_to_interval(entries) was called on them *)
   k_chunked : list (Z * list Z * list orec);   (* chunk size, records per chunk, all records in order *)
   k_writes : list wobs
 }.
@@ -70,12 +73,14 @@ Definition spec_ok (c : case) : bool :=
   && all2 (rec_matches refs) rs (k_whole c)
   && all2 (iv_matches refs) rs (k_ivs c)
   && match k_ivs2 c with Some l => all2 (iv_matches refs) rs l | None => false end
+  && all2 (rec_matches refs) rs (k_after_iv c)
   && forallb (fun '(k, counts, got) => all2 (rec_matches refs) rs got && (sumZ counts =? len rs)) (k_chunked c)
   && forallb (fun w =>
         let sel := select rs (w_idx w) in
         w_eof w && (len sel =? len (w_idx w))
         && zlist_eqb (w_stream w) (encode_file (k_text c) refs sel)
-        && all2 (rec_matches refs) sel (w_reread w)) (k_writes c).
+        && all2 (rec_matches refs) sel (w_reread w)
+        && all2 (rec_matches refs) sel (w_post w)) (k_writes c).
 
 (* ---------------------------------------------------------------- implementation = model *)
 Definition model_read := read_file.
@@ -91,6 +96,7 @@ Definition model_ok (c : case) : bool :=
           | Some l => forallb (fun i => match i_chrom i with Some _ => true | None => false end) m && all2 oiv_eqb m l
           | None => existsb (fun i => match i_chrom i with Some _ => false | None => true end) m
           end)
+      && all2 orec_eqb (decode_buf current names b) (k_after_iv c)
       && forallb (fun '(k, counts, got) =>
             match read_chunks k body with
             | None => false
@@ -111,6 +117,11 @@ Definition model_ok (c : case) : bool :=
                 zlist_eqb (w_stream w) wb
                 && match model_read wb with
                    | Some (names2, _, b2) => all2 orec_eqb (decode_buf current names2 b2) (w_reread w)
+                   | None => false
+                   end
+                && match (if w_mode w =? 1 then decode_selected current names b (w_idx w)
+                          else Some (decode_buf current names b)) with
+                   | Some m => all2 orec_eqb m (w_post w)
                    | None => false
                    end
             end) (k_writes c)
